@@ -5,7 +5,7 @@ mod lkh_search_test;
 use super::*;
 use crate::{
     algorithms::lkh::*,
-    construction::probing::repair_solution_from_unknown,
+    construction::{heuristics::UnassignmentInfo, probing::repair_solution_from_unknown},
     models::{common::Profile, solution::Tour},
     prelude::{Cost, Location, RouteContext, TransportCost},
 };
@@ -95,8 +95,28 @@ impl LKHSearch {
                 *route_ctx = orig_route_ctx.deep_copy();
             });
 
-        // restore original unassigned jobs
-        new_solution.solution.unassigned = orig_solution.solution.unassigned.clone();
+        // reconcile job collections with restored routes: each job should be kept in one place only
+        let solution_ctx = &mut new_solution.solution;
+        let assigned: HashSet<_> =
+            solution_ctx.routes.iter().flat_map(|route_ctx| route_ctx.route().tour.jobs().cloned()).collect();
+        solution_ctx.required.retain(|job| !assigned.contains(job));
+        solution_ctx.ignored.retain(|job| !assigned.contains(job));
+        solution_ctx.unassigned.retain(|job, _| !assigned.contains(job));
+
+        // jobs which were present only in replaced routes are unassigned again
+        let tracked: HashSet<_> = solution_ctx.required.iter().chain(solution_ctx.ignored.iter()).cloned().collect();
+        let lost = orig_solution
+            .problem
+            .jobs
+            .all()
+            .iter()
+            .filter(|job| !assigned.contains(*job) && !tracked.contains(*job) && !solution_ctx.unassigned.contains_key(*job))
+            .map(|job| {
+                let info = orig_solution.solution.unassigned.get(job).cloned().unwrap_or(UnassignmentInfo::Unknown);
+                (job.clone(), info)
+            })
+            .collect::<Vec<_>>();
+        solution_ctx.unassigned.extend(lost);
 
         // recalculate solution state if we do
         new_solution.restore();
